@@ -1,18 +1,7 @@
 #!/bin/sh
-# Builds the extracted model + driver into /verif/.build/ocaml/driver (offline, ocamlfind ocamlopt).
+# Builds .build/ocaml/driver: one extracted model PER PROPERTY (coq/extract.d/Cxx.roots + common.roots ->
+# model_cxx.ml), each with its own instance of conv.ml / evalutil.ml and its driver module cxx.ml.  Separate
+# extractions keep constructor/function names stable when new models are added (no cross-property renaming).
 set -e
 V=$(cd "$(dirname "$0")/.." && pwd)
-B="$V/.build/ocaml"
-mkdir -p "$B"
-python3 "$V/tools/gen_extract.py"
-cd "$B"
-# re-extract only when the extraction file or any compiled model changed
-stamp="$B/.extract.stamp"
-if [ ! -f model.ml ] || [ -n "$(find "$V/coq/Extract.v" "$V/coq/theories" -name '*.vo' -newer "$stamp" 2>/dev/null | head -1)" ] || [ "$V/coq/Extract.v" -nt "$stamp" ] || [ ! -f "$stamp" ]; then
-  coqc -Q "$V/coq/theories/Spec" Patronus -Q "$V/coq/theories/Model" Patronus "$V/coq/Extract.v" >/dev/null
-  touch "$stamp"
-fi
-cp "$V"/ocaml/driver/*.ml "$B"/
-mods="sexp.ml registry.ml conv.ml $(cd "$V/ocaml/driver" && ls c[0-9]*.ml | sort | tr '\n' ' ') main.ml"
-ocamlfind ocamlopt -O3 -w -a -package str -linkpkg model.mli model.ml $mods -o driver 2>/dev/null || \
-ocamlfind ocamlopt -w -a -package str -linkpkg model.mli model.ml $mods -o driver
+exec python3 "$V/tools/build_driver.py"
